@@ -24,3 +24,27 @@ package pgptools
 //@   before call builtin send(c, _): assert @the_pipe_is_released_before_the_result_is_handed_over closed && sent == 0 && c == done
 //@   on call builtin send(_, _) ret (): sent = sent + 1
 //@   ensures @one_result_sent_and_the_read_end_closed_on_every_path_so_the_signer_never_blocks_on_the_pipe sent == 1 && closed
+//@
+//@ func VerifyDetached
+//@   property C02
+//@   ghost fed bool = false
+//@   ghost ok bool = false
+//@   before call io.Copy(dst, src): assert @the_signed_document_goes_to_the_hash_the_signature_names dst == iface(d) && src == signed
+//@   on call io.Copy(_, _) ret (n, e): fed = (e == nil)
+//@   on call (*packet.PublicKey).VerifySignature(k, h, s) ret (e): ok = (e == nil && fed && h == iface(d) && s == pkt && k == atcall(key.PublicKey))
+//@   ensures @signature_packet_verified_over_the_whole_document_under_the_key_found_in_the_keyring ret1 == nil ==> ok && ret0 != nil && ret0.Key == key
+//@
+//@ func VerifyClearSign
+//@   property C02
+//@   ghost inner bool = false
+//@   ghost shown []byte = nil
+//@   on call invoke io.Writer.Write(w, p) ret (n, e): shown = ite(w == cleartext, p, shown)
+//@   before call VerifyDetached(_, _, ring): assert @embedded_signature_checked_against_the_callers_keyring ring == keyring && (cleartext != nil ==> sameslice(shown, csblock.Bytes))
+//@   on call VerifyDetached(_, _, _) ret (s, e): inner = (e == nil)
+//@   ensures @success_only_when_the_embedded_signature_verifies ret1 == nil ==> inner
+//@
+//@ func VerifyInline
+//@   property C02
+//@   ghost drained bool = false
+//@   on call io.Copy(_, src) ret (n, e): drained = (e == nil && src == md.UnverifiedBody)
+//@   ensures @success_only_after_the_body_was_read_to_its_end_and_the_library_reported_no_signature_error ret1 == nil ==> drained && md.SignatureError == nil && ret0 != nil
